@@ -375,18 +375,21 @@ def load_known():
     return {'findings': [], 'fixed': []}
 
 
+OUT = os.environ.get('VERIF_OUT', VERIF)   # evidence/ and replays/ go here (seeded-change runs use a scratch dir)
+
+
 def write_replay(prop, obj):
-    os.makedirs(os.path.join(VERIF, 'replays'), exist_ok=True)
+    os.makedirs(os.path.join(OUT, 'replays'), exist_ok=True)
     blob = json.dumps(obj, indent=1, sort_keys=True)
     name = '%s-%s.json' % (prop, hashlib.sha1(blob.encode()).hexdigest()[:12])
-    path = os.path.join(VERIF, 'replays', name)
+    path = os.path.join(OUT, 'replays', name)
     open(path, 'w').write(blob)
     return path
 
 
 def write_evidence(prop, ev):
-    os.makedirs(os.path.join(VERIF, 'evidence'), exist_ok=True)
-    p = os.path.join(VERIF, 'evidence', prop + '.json')
+    os.makedirs(os.path.join(OUT, 'evidence'), exist_ok=True)
+    p = os.path.join(OUT, 'evidence', prop + '.json')
     tmp = p + '.tmp'
     json.dump(ev, open(tmp, 'w'), indent=1)
     os.replace(tmp, p)
